@@ -688,11 +688,16 @@ class Algebra(object):
         return p, n
 
     # ------------------------------------------------------------------ printing
-    def show(self, p, depth=3):
+    def show(self, p, depth=3, limit=6):
         if p.is_zero():
             return "0"
         parts = []
-        for mono, c in sorted(p.m.items(), key=lambda x: str(x[0])):
+        n = 0
+        for mono, c in p.m.items():
+            n += 1
+            if n > limit:
+                parts.append("… (%d terms)" % len(p.m))
+                break
             fs = []
             for a, pw_ in mono:
                 s = self.show_atom(self.atoms[a], depth)
